@@ -2029,7 +2029,16 @@ class GenericStorage(Storage):
             args = loc.children()
             if len(args) < 2:
                 raise ValueError(loc)
-            return cls.add_all([cls.decode(ex, arg) for arg in args])
+            # flatten `hash constant + delta` so that add_all() sees all plain offsets at once
+            flat_args = []
+            for arg in args:
+                if is_bv_value(arg):
+                    orig_term = ex.sha3s.reverse_lookup(arg.as_long())
+                    if orig_term is not None and orig_term.decl().name() == "bvadd":
+                        flat_args.extend(orig_term.children())
+                        continue
+                flat_args.append(arg)
+            return cls.add_all([cls.decode(ex, arg) for arg in flat_args])
         elif is_bv_value(loc):
             orig_term = ex.sha3s.reverse_lookup(loc.as_long())
             if orig_term is not None:
@@ -2052,6 +2061,16 @@ class GenericStorage(Storage):
     @classmethod
     def add_all(cls, args: list) -> BitVecRef:
         bitsize = max([x.size() for x in args])
+
+        # plain offsets are first added up in 256-bit (evm) arithmetic, so that, e.g.,
+        # `(hash - 1) + i` and `hash + (i - 1)` denote the same location in the wider domain
+        offsets = [x for x in args if x.size() <= 256]
+        if bitsize > 256 and len(offsets) > 1:
+            offset_sum = con(0)
+            for x in offsets:
+                offset_sum += simplify(ZeroExt(256 - x.size(), x)) if x.size() < 256 else x
+            args = [x for x in args if x.size() > 256] + [simplify(offset_sum)]
+
         res = con(0, bitsize)
         for x in args:
             if x.size() < bitsize:
